@@ -180,6 +180,14 @@ def check_panel(case):
         f1 = np.asarray(p.calc_fext(silent=True), dtype=float)
         check_solution(K, f1, c, fails, dict(case=case))
         execs += 3
+        # increment settings prepared for a later non-linear run must not enter the linear analysis (it is an analysis at full load)
+        pm = build()
+        pm.analysis.maxInc, pm.analysis.initialInc = 0.5, 0.25
+        cm = np.asarray(pm.static(silent=True)[0], dtype=float)
+        execs += 1
+        if np.abs(cm - c).max() > 1e-12 * (np.abs(c).max() + 1e-300):
+            fails.append(fail('linear static solution depends on the increment settings of the analysis object (maxInc, initialInc)', sig=None, case=case,
+                              rel=float(np.abs(cm - c).max() / (np.abs(c).max() + 1e-300))))
         # linearity edges: scale the loads, split the load set
         c2 = np.asarray(build(scale=-2.5).static(silent=True)[0], dtype=float)
         if np.abs(c2 + 2.5 * c).max() > 1e-9 * (np.abs(c).max() + 1e-300):
